@@ -1,2 +1,6 @@
 import SCP.C01
+import SCP.C02
 import SCP.C04
+import SCP.C05
+import SCP.C06
+import SCP.Calendar
